@@ -262,7 +262,7 @@ def plan_workers(spec, tier, nproc):
         v = vs[i % len(vs)]
         plan.append(dict(variant=v, cases=t["cases"], size=t["size"], extra=t.get("extra", [])))
     for i in range(nfz):   # coverage-guided workers (libFuzzer, in-process daemon); odd ones start from an empty corpus
-        plan.append(dict(variant="default", runner="dfuzz", mode=spec["fuzz"]["mode"], cases=fz["runs"], size=fz["max_len"], corpus="seeds" if i % 2 == 0 else "empty"))
+        plan.append(dict(variant="default", runner="dfuzz", mode=spec["fuzz"]["mode"], rules=spec["fuzz"].get("rules", ""), cases=fz["runs"], size=fz["max_len"], corpus="seeds" if i % 2 == 0 else "empty"))
     return plan
 
 import hashlib, shutil
@@ -291,12 +291,13 @@ def build_module(prop, variant):
             if fn.endswith(".h") or fn.endswith(".in"): hdrs.append(os.path.join(root, fn))
     drv_obj = os.path.join(VERIF, "build", "fw", "mod_" + spec["driver"] + ".o")
     hid = _hash_files(sorted(src + shim + hdrs) + [drv_obj], repr(spec.get("cflags", [])))
-    out = os.path.join(VERIF, "build", "mod", "%s-%s" % (prop, hid))
+    modroot = "mod" if REPO == "/repo" else "mod-" + hashlib.sha256(REPO.encode()).hexdigest()[:8]   # trial trees never prune /repo's builds
+    out = os.path.join(VERIF, "build", modroot, "%s-%s" % (prop, hid))
     bins = {k: os.path.join(out, k + ".bin") for k in spec["kinds"]}
     if all(os.path.exists(b) for b in bins.values()):
         return bins
-    for d in os.listdir(os.path.join(VERIF, "build", "mod")) if os.path.isdir(os.path.join(VERIF, "build", "mod")) else []:
-        if d.startswith(prop + "-"): shutil.rmtree(os.path.join(VERIF, "build", "mod", d), ignore_errors=True)
+    for d in os.listdir(os.path.join(VERIF, "build", modroot)) if os.path.isdir(os.path.join(VERIF, "build", modroot)) else []:
+        if d.startswith(prop + "-"): shutil.rmtree(os.path.join(VERIF, "build", modroot, d), ignore_errors=True)
     tmp = out + ".tmp%d" % os.getpid()
     os.makedirs(tmp)
     import build_sut
